@@ -29,7 +29,7 @@ class Prop(BaseProp):
 
     def run_case(self, idx, rng):
         res = CaseResult()
-        tree = gen_tree(rng, max_depth=rng.choice([1, 2, 3, 4]))
+        tree = gen_tree(rng, max_depth=rng.choice([1, 2, 3, 4]), case_twins=rng.random() < 0.3)
         recursive = rng.random() < 0.7
         auto = rng.random() < 0.6
         prefix = rng.choice([None, None, "Pfx", "my.pkg"])
